@@ -493,7 +493,7 @@ def impl_relations(res, impl, quick, extra=()):
     cx = Ctx(res, impl)
     for t in extra:
         cx.scalar(t)
-    n_t = 150 if quick else 1500
+    n_t = 400 if quick else 6000
     cases = corpus_tensors()
     cases += [gen_tensor(rng, KINDS[i % len(KINDS)]) for i in range(n_t)]
     for (t, exact) in cases:
@@ -544,7 +544,7 @@ def near_expr(expr, other, tol):
 def certificates(res, impl, quick):
     rng = res.rng
     E = impl.E
-    n_t = 32 if quick else 300
+    n_t = 32 if quick else 150
     cases = corpus_tensors()[:12] + [gen_tensor(rng, KINDS[i % len(KINDS)]) for i in range(n_t)]
     goals, descr, skipped = [], [], []
     A = cert.app
@@ -660,7 +660,10 @@ def run(res):
     impl = Impl()
     cert_nan = []
     gen_ok = not any('A:model regenerates' in b['obligation'] for b in res.broken)
-    if gen_ok and (proofs_ok or os.path.exists(os.path.join(common.COQ, 'gen', 'GenEquistress.vo'))):
+    built = not any(b['obligation'].startswith('B:') for b in res.broken)
+    if not built:
+        res.notes.append('certificates not run: the Coq development no longer builds against the regenerated model (obligation B)')
+    if gen_ok and built:
         try:
             goals, descr, skipped = certificates(res, impl, quick)
             cert_nan = skipped
